@@ -128,6 +128,13 @@ In-place mutation, nested loops, decision trees (option `mut=True`, third pass; 
   (applied to the self binders, bound if it can panic); `a.saturating_sub(b)` of usize is the truncated `a - b`; `mut_self_value`: a
   `&mut self` method whose effect is spelled by its value; a tail `if` whose branches contain checked subtractions keeps the
   guards inside the branches.
+  Kernels: `a % b` of usize (a non-zero literal divisor of `/` or `%` cannot panic: no guard); `x.is_empty()` is `x.isEmpty` (also in the
+  `loops` subset).
+  Redraw loops: option `redraw=dict(draws=[..], state=.., [while_index=n])` translates a body (or the block containing the n-th
+  `while`) of the exact shape `let mut v = D; while c(v) { v = D; } tail(v)`, `D` a listed draw of an abstract generator, as
+  `(Cv.SrcDraw.redrawWhile (fun v => c v) draw fuel g).map fun r => (tail r.1, r.2)` (fuel-bounded; Model/SrcDraw.lean); fragment kind
+  `after_while`: the value of the block after the n-th `while` loop, as a function of its declared free variables.  Any other
+  `while` stays outside the subset.
   Private helpers (option `inline_helpers`, default on with `mut`): a call `Self::h(args)` / `h(args)` of a PRIVATE function of the same
   file that has no spelling in `fns` is inlined when its body is straight-line (`assert!`, `if c { panic!() }`, immutable `let`s, an
   optional value): the helper's panics are guards of the calling statement, in the helper's order; `h(x);` of a unit helper is a
@@ -1152,6 +1159,8 @@ class Opts:
         self.adt_ctors = {}           # "Broadcast::Vstack" -> Lean constructor term (applied to the translated arguments)
         self.struct_types = {}        # struct type of a parameter -> [(field, type)]: binders `<param>_<field>`
         self.struct_methods = {}      # method on such a parameter -> list of fields: `m.shape()` = the tuple of these fields
+        self.redraw = None            # (implies `mut`) the whole body `let mut v = D; while c(v) { v = D; } tail(v)` with `D` a draw of an abstract
+                                      # generator: dict(draws=[source texts of D], state="Cv.Rng"); see Translator._redraw_def
         self.default_consts = True    # `f64::EPSILON`, `consts::PI`, … without a spelling in `consts`: `Cv.F64Consts.*` (Model/F64Consts.lean)
         self.auto_lits = True         # an inexact decimal literal without a name in `named_lits`: `Cv.Lit.ofBits 0x…` (its f64 bits)
         self.inline_helpers = True    # (mut) a call `Self::h(args)` / `h(args)` of a PRIVATE function of the same file that is not in `fns`
@@ -1178,7 +1187,7 @@ class Opts:
                                       # fields (`m.data[i] = e` mutates the field), the value `m` is rebuilt with it
         self.doc = None
         self.__dict__.update(kw)
-        if self.state_fn:
+        if self.state_fn or self.redraw:
             self.mut = True
         if self.mut:
             self.loops = True
@@ -1441,6 +1450,9 @@ class Translator:
         if o.state_fn:
             self.started_option = True
             return self._state_def()
+        if o.redraw:
+            self.started_option = True
+            return self._redraw_def()
         body = Parser(src, *fn.body).block_body()
         params = self._params()
         env = {}
@@ -1551,6 +1563,122 @@ class Translator:
         if self.option_mode:
             rty = "Option (%s)" % rty if " " in rty else "Option %s" % rty
         return self._emit_def(binders, rty, lean_body)
+
+    # ---- the redraw loop `let mut v = D; while c(v) { v = D; }` (option `redraw`, fragment kind `after_while`)
+    def _while_parts(self, node):
+        """a `while cond { body }` loop node -> (condition AST, body block)"""
+        T, mt = self.src.toks, self.src.mt
+        lo, hi = node.rng
+        if T[lo].s != "while":
+            raise Unsupported("loop `%s` (expected `while`)" % node.head)
+        body_open = mt[hi - 1]
+        p = Parser(self.src, lo + 1, body_open)
+        p.no_struct = 1
+        c = p.expr()
+        if p.i != body_open:
+            raise Unsupported("`while` condition shape")
+        return c, Parser(self.src, body_open + 1, hi - 1).block_body()
+
+    def _redraw_shape(self, stmts):
+        """`let mut v = D; while c(v) { v = D; }` at the head of `stmts` -> (v, D text, condition AST)"""
+        if len(stmts) < 2 or stmts[0].kind != "let" or not stmts[0].mut or not isinstance(stmts[0].pat, str) \
+                or stmts[1].kind != "loop":
+            raise Unsupported("body is not `let mut v = D; while c(v) { v = D; } ..`")
+        v = stmts[0].pat
+        T = self.src.toks
+        # the source text of the initializer: tokens between `=` and `;` of the `let`
+        def text_of(e):
+            return " ".join(self._ast_text(e).split())
+        d0 = text_of(stmts[0].e)
+        c, body = self._while_parts(stmts[1])
+        bs = self._stmt_block(body)
+        if len(bs) != 1 or bs[0].kind != "assign" or bs[0].op != "=" or bs[0].target.kind != "var" or bs[0].target.name != v \
+                or text_of(bs[0].e) != d0:
+            raise Unsupported("`while` body is not the re-assignment `%s = <the same draw>;`" % v)
+        if self._ast_vars(c, set()) - {v} and any(x != v and not x[0].isupper() for x in self._ast_vars(c, set())):
+            raise Unsupported("`while` condition mentions other variables than `%s`" % v)
+        return v, d0, c
+
+    def _ast_text(self, e):
+        k = e.kind
+        if k == "var":
+            return e.name
+        if k == "path":
+            return "::".join(e.segs)
+        if k == "lit":
+            return e.text
+        if k == "field":
+            return self._ast_text(e.e) + "." + e.name
+        if k == "method":
+            return "%s.%s(%s)" % (self._ast_text(e.recv), e.name, ",".join(self._ast_text(a) for a in e.args))
+        if k == "call":
+            return "%s(%s)" % ("::".join(e.path), ",".join(self._ast_text(a) for a in e.args))
+        if k == "paren":
+            return "(" + self._ast_text(e.e) + ")"
+        if k == "un":
+            return e.op + self._ast_text(e.e)
+        if k == "bin":
+            return "%s %s %s" % (self._ast_text(e.l), e.op, self._ast_text(e.r))
+        raise Unsupported("draw expression of kind %s" % k)
+
+    def _redraw_def(self):
+        """A sampler body `let mut v = D; while c(v) { v = D; } tail(v)` where `D` is a draw of an abstract generator (one of the source
+        texts listed in `redraw["draws"]`):
+            def f (draw : σ → α × σ) (fuel : Nat) (params) (g : σ) : Option (α × σ) :=
+              (Cv.SrcDraw.redrawWhile (fun v => c v) draw fuel g).map fun r => (let v := r.1; tail v, r.2)
+        `σ` is `redraw["state"]`; the loop is fuel-bounded (`none` = `fuel` draws all satisfied `c`), as the models' rejection loops."""
+        o, fn, src = self.o, self.fn, self.src
+        blo, bhi = fn.body
+        if o.redraw.get("while_index") is not None:
+            # the BLOCK that contains the n-th `while` of the body (e.g. the `then` block of an `if`) instead of the whole body
+            T, mt = src.toks, src.mt
+            hits = [i for i in range(blo, bhi - 1) if T[i].k == "id" and T[i].s == "while"]
+            n_ = o.redraw["while_index"]
+            if n_ >= len(hits):
+                raise NotFound("`while` #%d (found %d)" % (n_, len(hits)))
+            k_ = hits[n_] - 1
+            while k_ >= blo and not (T[k_].k == "p" and T[k_].s == "{"):
+                k_ = mt[k_] - 1 if T[k_].s in (")", "]", "}") else k_ - 1
+            if k_ >= blo:
+                blo, bhi = k_ + 1, mt[k_]
+        body = Parser(src, blo, bhi).block_body()
+        if body.tail is None or len(body.stmts) != 2:
+            raise Unsupported("body is not `let mut v = D; while c(v) { v = D; } tail`")
+        v, d0, c = self._redraw_shape(body.stmts)
+        draws = [" ".join(x.split()) for x in o.redraw.get("draws", [])]
+        if d0 not in draws:
+            raise Unsupported("the redrawn expression `%s` is not a listed generator draw" % d0)
+        st = o.redraw.get("state", "σ")
+        env, binders = {}, []
+        if fn.impl in src.structs:
+            for f, ty in src.structs[fn.impl]:
+                if o.self_fields is not None and f not in o.self_fields:
+                    continue
+                rt = self.ty2(ty)
+                if rt is None:
+                    continue
+                env["self." + f] = (self.lname(f), rt)
+                binders.append((self.lname(f), lean_ty(rt)))
+        self.self_args = [b[0] for b in binders]
+        vn = self.lname(v)
+        cenv = dict(env)
+        cenv[v] = (vn, F)
+        self._declare(v, cenv, False)
+        self.option_mode = False
+        self.ret_ty = F
+        self.in_closure += 1
+        try:
+            ctext = self.cond(c, cenv)
+            tail, tty = self.expr(body.tail, cenv)
+            if tty != F and not (is_tup(tty) and all(t == F for t in tty[1])):
+                raise Unsupported("value after the redraw loop of type %s" % (tty,))
+        finally:
+            self.in_closure -= 1
+        rty = _tyatom(tty)
+        lean_body = ("  (Cv.SrcDraw.redrawWhile (fun (%s : α) => decide (%s)) draw fuel g).map fun (r : α × %s) =>\n"
+                     "    (let %s : α := r.1\n     %s, r.2)") % (vn, ctext, st, vn, tail)
+        allb = [("draw", "%s → α × %s" % (st, st)), ("fuel", "Nat")] + binders + [("g", st)]
+        return self._emit_def(allb, "Option (%s × %s)" % (rty, st), lean_body)
 
     # ---- `&mut self` methods as state transformers (option `state_fn`)
     def _state_def(self):
@@ -3120,6 +3248,10 @@ class Translator:
         r, tr = self.expr(e.r, env)
         if op in ("&", "|") and tl == B and tr == B:
             return "%s %s %s" % (self.atom(l), "∧" if op == "&" else "∨", self.atom(r)), B
+        if op == "%" and o.mut and o.int_arith and tl in (U, INTLIT) and tr in (U, INTLIT) and (tl, tr) != (INTLIT, INTLIT):
+            if not (tr == INTLIT and r.strip().isdigit() and int(r) > 0):
+                self.add_pre(("guard", "0 < %s" % self.atom(r)), "`usize` remainder `%s %% %s`" % (l, r))
+            return "(%s %% %s)" % (self.atom(l), self.atom(r)), U
         if op in ("+", "-", "*", "/"):
             if tl == F and tr == F:
                 return "(%s %s %s)" % (self.atom(l), op, self.atom(r)), F
@@ -3148,7 +3280,8 @@ class Translator:
                 if op == "/":
                     if not (o.loops and ty == U):
                         raise Unsupported("integer division")
-                    self.add_pre(("guard", "0 < %s" % self.atom(r)), "`usize` division `%s / %s`" % (l, r))
+                    if not (o.mut and tr == INTLIT and r.strip().isdigit() and int(r) > 0):     # a non-zero literal divisor cannot panic
+                        self.add_pre(("guard", "0 < %s" % self.atom(r)), "`usize` division `%s / %s`" % (l, r))
                 return "(%s %s %s)" % (self.atom(l), op, self.atom(r)), ty
             raise Unsupported("operator `%s` on %s and %s" % (op, tl, tr))
         if op == "==" and o.mut and is_tup(tl) and is_tup(tr) and len(tl[1]) == len(tr[1]):
@@ -3659,6 +3792,8 @@ class Translator:
             return r, tr
         if name == "len" and not args:
             return "%s.length" % ra, U
+        if name == "is_empty" and not args:
+            return "%s.isEmpty" % ra, B
         if name == "collect" and not args:
             return r, norm_list(tr)
         if name == "rev" and not args:
@@ -3788,6 +3923,27 @@ class Translator:
             if p.i != p.hi:
                 raise Unsupported("call of `%s`: more than one argument" % callee)
             doc = "`%s`%s, argument of `%s(..)` #%d: `%s`" % (where, armtxt, callee, idx, self.src.pretty((i, mt[i + 1] + 1)))
+        elif kind == "after_while":
+            # the value of the block that contains the n-th `while` loop (the expression after the loop), option `mut`
+            if not o.mut:
+                raise Unsupported("fragment kind `after_while` needs the option `mut`")
+            hits = [i for i in range(lo, hi - 1) if toks[i].k == "id" and toks[i].s == "while"]
+            if idx >= len(hits):
+                raise NotFound("`while` #%d (found %d)" % (idx, len(hits)))
+            i = hits[idx]
+            j = i + 1
+            while not (toks[j].k == "p" and toks[j].s == "{"):
+                j = mt[j] + 1 if toks[j].s in ("(", "[") else j + 1
+            after = mt[j] + 1
+            # the end of the enclosing block: the first unmatched `}` (or the end of the body)
+            k_ = after
+            while k_ < hi and not (toks[k_].k == "p" and toks[k_].s == "}"):
+                k_ = mt[k_] + 1 if toks[k_].s in ("(", "[", "{") else k_ + 1
+            p = Parser(self.src, after, k_)
+            expr = p.expr()
+            if p.i != k_:
+                raise Unsupported("code after the `while` loop is not a single expression")
+            doc = "`%s`%s, value after `while` #%d: `%s`" % (where, armtxt, idx, self.src.pretty((after, k_)))
         elif kind == "cond":
             # the condition of the n-th `if` of the body (option `mut`), as a Boolean function of its declared free variables
             if not o.mut:
@@ -3923,6 +4079,11 @@ class Translator:
             if vty != B:
                 raise Unsupported("expected a condition, found %s: %s" % (vty, v))
             return self._emit_def(binders, "Bool", "  decide (%s)" % v)
+        if o.mut and kind == "after_while":
+            v, vty = self.expr(expr, cenv)
+            if vty != F and not (is_tup(vty) and all(t == F for t in vty[1])):
+                raise Unsupported("expected an f64 expression or a tuple of them, found %s: %s" % (vty, v))
+            return self._emit_def(binders, lean_ty(vty), "  " + v)
         if o.mut and kind == "assign":
             v, vty = self.expr(expr, cenv)
             if vty not in (F, VAR):
@@ -4095,6 +4256,14 @@ impl Bt { pub fn set_alpha(&mut self, alpha: f64) -> &mut Self { if alpha <= 0. 
     fn update(&mut self, params: &[f64]) { self.set_alpha(params[0]).set_b(params[1] as usize as f64); }
     fn reset(&mut self, params: &[f64]) { *self = Self::new(params[0]); }
     fn pick(&self) -> f64 { if self.alpha < 10. { 1. } else { 2. } } }
+fn k_sum(x: &[f64]) -> f64 { let n = x.len(); let chunks = (n - (n % 4)) / 4; let mut s = 0.;
+    for i in 0..chunks { let idx = i * 4; assert!(n > idx + 3); s += x[idx] + x[idx + 1] + x[idx + 2] + x[idx + 3]; }
+    for j in x.iter().take(n).skip(chunks * 4) { s += j; } s }
+fn k_empty(x: &[f64]) -> f64 { if x.is_empty() { return f64::NEG_INFINITY; } x.iter().sum::<f64>() }
+impl Ex { fn redraw(&self) -> f64 { let mut u = self.rng.sample(); while u == 0. { u = self.rng.sample(); } -u.ln() / self.lambda }
+    fn redraw2(&self) -> f64 { let mut u = self.rng.sample(); while u == 0. { u = other(); } u }
+    fn boost(&self) -> f64 { let (a, b) = if self.lambda < 1. { let mut u = self.rng.sample(); while u <= 0. { u = self.rng.sample(); }
+        (self.lambda + 1., u.powf(2.)) } else { (self.lambda, 1.) }; a * b } }
 pub struct Nm { mu: f64, sigma: f64 }
 impl Nm { pub fn new(mu: f64, sigma: f64) -> Self { let sigma = Self::checked(sigma); Self::must(mu); Self { mu, sigma } }
     fn checked(s: f64) -> f64 { if s < 0. { panic!("neg") } s }
@@ -4362,6 +4531,26 @@ def _selftest():
           type_alias={"&mutSelf": "Vec<f64>"}, self_methods={"store": ("{0}", "vec", False)}, fns={"inv": "INV"}, fn_ret={"inv": "vec"},
           opt_fns=("inv",), mut=True, self_fields=["coeffs", "c"])
     refuse("Ar::refit", "`&mut self`", mut=True, self_fields=["coeffs", "c"])
+    # an unrolled kernel: `%` / a literal divisor, the `assert!` inside the loop (foldlM), ONE accumulator in the source's association
+    check("k_sum", "if (x.length % 4) ≤ x.length then let chunks : Nat := ((x.length - (x.length % 4)) / 4) let s : α := 0 "
+          "(List.foldlM (m := Option) (fun (s : α) (i : Nat) => if x.length > ((i * 4) + 3) then "
+          "let s : α := (s + (((x[(i * 4)]! + x[((i * 4) + 1)]!) + x[((i * 4) + 2)]!) + x[((i * 4) + 3)]!)) some s else none) s (List.range chunks)).bind "
+          "fun (s : α) => let s : α := List.foldl (fun (s : α) (j : α) => let s : α := (s + j) s) s (List.drop (chunks * 4) (List.take x.length x)) "
+          "some s else none", mut=True, int_arith=True)
+    check("k_empty", "if x.isEmpty then ninf else (Cv.iterSum x)", consts={"f64::NEG_INFINITY": "ninf"}, **L)
+    # the redraw loop `let mut u = D; while c(u) { u = D; } tail(u)` over an abstract generator; the value after a `while` as a fragment
+    RD = dict(redraw=dict(draws=["self.rng.sample()"], state="G"), self_fields=["lambda"])
+    check("Ex::redraw", "(Cv.SrcDraw.redrawWhile (fun (u : α) => decide (u == 0)) draw fuel g).map fun (r : α × G) => "
+          "(let u : α := r.1 ((-(Cv.Transc.ln u)) / lambda), r.2)", **RD)
+    refuse("Ex::redraw2", "re-assignment", **RD)
+    refuse("Ex::redraw", "not a listed generator draw", redraw=dict(draws=["alea::f64()"], state="G"), self_fields=["lambda"])
+    check("Ex::boost", "(Cv.SrcDraw.redrawWhile (fun (u : α) => decide (u ≤ 0)) draw fuel g).map fun (r : α × G) => "
+          "(let u : α := r.1 ((lambda + 1), (Cv.Transc.pow u ((2 : Nat) : α))), r.2)",
+          redraw=dict(draws=["self.rng.sample()"], state="G", while_index=0), self_fields=["lambda"])
+    check("Ex::redraw", "((-(Cv.Transc.ln u)) / lambda)", mut=True,
+          closure=dict(kind="after_while", index=0, free={"u": "u", "self.lambda": "lambda"}))
+    refuse("Ex::redraw", "only `for` loops", mut=True, self_fields=["lambda"], field_calls={"rng.sample": ("u", "f64")},
+           extra_binders=[("u", "α")])
     # private helpers of the same file are inlined: their `panic!` / `assert!` become guards of the calling statement
     NM = dict(adts={"Nm": "NM"}, struct_types={"Nm": [("mu", "f64"), ("sigma", "f64")]}, struct_mk={"Nm": "MK"})
     check("Nm::new", "if sigma < 0 then none else let sigma : α := sigma if mu > 0 then some (MK mu sigma) else none", mut=True, **NM)
